@@ -159,7 +159,23 @@ def _register_jump_graph():
             ctx.prove("post.forward_jump_designates_the_block_that_starts_at_its_target", z3.BoolVal(len(blocks) == 2 and blocks[0][0].arg.target == 1))
             ctx.prove("post.jump_to_offset_0_designates_block_0", z3.BoolVal(len(blocks) == 2 and blocks[1][1].arg.target == 0))
             ctx.prove("post.every_jump_target_is_an_existing_block", z3.BoolVal(all(0 <= i.arg.target < len(blocks) for b in blocks for i in b if isinstance(i.arg, Jump))))
-        harness("blocks.bytes_to_blocks.jump_graph[%s,%s]" % kinds, props=["C13", "C02"], functions=["code_data._blocks.bytes_to_blocks"], configs="all", engine="E2",
+            # the jump target is itself an instruction with EXTENDED_ARG prefixes: it starts (and its block opens) at its FIRST code unit
+            seq2 = [(ops[kinds[0]], 0, 1, 0, 2), (nop, 70000, 3, 2, 8), (ops[kinds[1]], 0, 1, 8, 10), (nop, 0, 1, 10, 12)]
+            seq[:] = seq2
+            tgt.clear(); tgt.update({0: 2, 8: 2})
+            lm2 = L.LineMapping({o: 1 for o in range(0, 12, 2)}, {})
+            blocks2, _ = ns["bytes_to_blocks"]("CODE", lm2, (), (), (), (), (), None, Args())
+            ctx.prove("post.a_prefixed_instruction_that_is_jumped_to_opens_a_block_at_its_first_unit", z3.BoolVal([len(b) for b in blocks2] == [1, 3] and blocks2[0][0].arg.target == 1 and
+                      blocks2[1][1].arg.target == 1 and blocks2[1][0].name == "NOP"), detail=repr(blocks2))
+            # a jump with a (possibly redundant) prefix keeps its width whatever it jumps to: here the target lies beyond offset 65535
+            seq[:] = [(nop, 0, 1, 0, 2), (ops[kinds[0]], 1, 2, 2, 6), (nop, 0, 1, 6, 8), (nop, 0, 1, 70000, 70002)]
+            tgt.clear(); tgt.update({4: 70000})
+            lm3 = L.LineMapping({o: 1 for o in (0, 2, 4, 6, 70000)}, {})
+            blocks3, _ = ns["bytes_to_blocks"]("CODE", lm3, (), (), (), (), (), None, Args())
+            flat3 = [i for b in blocks3 for i in b]
+            ctx.prove("post.the_width_of_a_prefixed_jump_is_recorded_whatever_its_target(C01: redundant EXTENDED_ARG 0 prefixes)", z3.BoolVal(len(flat3) == 4 and flat3[1]._n_args_override == 2 and
+                      [len(b) for b in blocks3] == [3, 1] and flat3[1].arg.target == 1), detail=repr(blocks3))
+        harness("blocks.bytes_to_blocks.jump_graph[%s,%s]" % kinds, props=["C13", "C02", "C01"], functions=["code_data._blocks.bytes_to_blocks"], configs="all", engine="E2",
                 notes="bounded: the real function on a five-instruction sequence (stubbed _parse_bytes/to_arg) with a forward jump and a jump to offset 0: blocks open exactly at {0} and the targets, "
                       "jumps are rewritten to the index of the block that starts at their target")(h)
 
